@@ -7,7 +7,7 @@ from . import c11
 LEVEL = "proof"
 ASSUMPTIONS = ["positional groups are C11's; this property is about the allele filter on top of them"]
 RELS = ["Equality", "Intersects", "Subset"]
-ALTS = [[], ["C"], ["G"], ["C", "G"], ["G", "C"], ["C", "G", "T"], ["T"]]
+ALTS = [[], ["C"], ["G"], ["C", "G"], ["G", "C"], ["C", "G", "T"], ["T"], [""]]     # [""]: a blank allele column is one (empty) allele
 
 
 def rel_test(rel, base, other):
